@@ -85,7 +85,7 @@ claim('C20',
       'Trusted: Lean kernel, correspondence harness, transcription of the Java documentation (Spec/JavaRandom.lean) and of the GMP manual (Spec/TruncLcg.lean). '
       'os.urandom, SHAKE128, MT19937 (random.getrandbits) and the numpy bit generators are oracles, not modelled: only their output length (getrandbits: < 2^n) is assumed; seeded ones are re-derived independently by the harness. '
       'Urandom and SubsetSum ignore the seed by design (`del seed`), so the reproducibility clause is not applicable to them and not claimed. numpy rejects negative seeds (ValueError); negative seeds are exercised on all other generators. '
-      'Not GMP-bit-compatible by design of rng.py: multipliers from L\'Ecuyer/Steele-Vigna, whole-byte framing of each output. Lehmer(bits=0) does not terminate in Python and is outside the model.',
+      'Not GMP-bit-compatible by design of rng.py: multipliers from L\'Ecuyer/Steele-Vigna, whole-byte framing of each output. Non-terminating constructor parameters (none of them in the registry) are modelled with an explicit `diverges` outcome and checked under an alarm / scripted oracle (ops rng.total, rng.entry_ok); negative constructor parameters and negative n are NOT modelled (naturals) — their real behaviour is tabulated in the header of Props/C20Total.lean and re-checked on every run (NEGATIVE_EXPECTED).',
       'Lean 4 proofs (range, model = Java/LCG specification, counter-example for the pinned TruncLcgRand) over an executable model + dual-variant differential correspondence with the Python implementation',
       'DESIGN.md section 5 C20, section 3.8, section 6 D5')
 
@@ -105,7 +105,7 @@ claim('C14',
       'clmul_block_is_64_steps + cpp_clmul_simulates_native (CLMUL variant: the uint64 bit loop on sb0, sc0 with a, b, c, d, carry_a, carry_c tracks polynomials A, B, C, D with '
       'sb_i = (A (*) sb + B (*) sc) >> i, sc_i = (C (*) sb + D (*) sc) >> i, deg A, C <= i, deg B, D < i so that only a and c need a carry; the first 64 steps depend on the low words only; '
       'the word loop with four clmuls per word assembles (A (*) sb + B (*) sc) >> 64; hence one block = 64 steps of LinearComplexityNative modulo the dead top word, and the tail loop finishes); '
-      'cpp_simulates_native: for EVERY byte string and EVERY int n, LfsrLengthStr of either variant = -1 if n < 0 or n > 8|seq|, else LinearComplexityNative(int.from_bytes(seq, little), n); '
+      'cpp_simulates_native: for every byte list and n OF THE WORD-LEVEL MODEL (unbounded ints; a statement about the real C++ only within BMCpp.CppSizeOk: n <= 2^30 and (|seq|+7)/8 < 2^31 words, i.e. |seq| <= 2^34 - 8 bytes), LfsrLengthStr of either variant = -1 if n < 0 or n > 8|seq|, else LinearComplexityNative(int.from_bytes(seq, little), n); '
       'cpp_no_undefined_behaviour (no out-of-bounds access reachable through LfsrLengthStr, incl. the n == 0 early return of the D8 fix); cpp_variants_agree; cpp_minus_one_iff; cpp_ignores_high_bits; '
       'cpp_matches_wrapper_model (the value Model/BM.lean assumed for the C++ result inside LinearComplexity — wrapper_agrees — is the value the word-level model computes); '
       'cpp_is_shortest_lfsr: for 0 <= n <= 8|seq| both C++ variants return the length of the shortest LFSR generating the first n bits. '
@@ -125,7 +125,7 @@ claim('C14',
       'Known findings (reported, exit 0): CLMUL variant crashes on the empty sequence (D8, fixed in the working tree); LfsrCount(0, 0) = 0 although the empty sequence exists (count_length_zero_pinned; count_repaired proves the patched guard exact for every n).',
       'Trusted: Lean kernel, correspondence harness, ctypes shim standing in for pybind11 (g++ builds of berlekamp_massey.cc from the working tree). '
       'SPECIFICATION, not derived: _mm_clmulepi64_si128(x, y, 0x00) / vmull_p64 = 64x64-bit carry-less product as defined by BMCpp.clmul (differentially tested against the instruction on every run). '
-      'C++ semantics assumed by the word-level model: std::vector<uint64_t> = list of UInt64 with wrapping shifts, C int variables (n, i, j, lfsr_len, size) as unbounded naturals — exact for n <= 2^30; '
+      'C++ semantics assumed by the word-level model: std::vector<uint64_t> = list of UInt64 with wrapping shifts, C int variables (n, i, j, lfsr_len, size) as unbounded naturals — exact for n <= 2^30 and fewer than 2^31 words (CppSizeOk, explicit hypothesis of the end-to-end theorem); '
       'for 2^30 < n < 2^31 the expression 2 * lfsr_len can overflow a 32-bit int once lfsr_len >= 2^30 (not reachable in practice: the algorithm is quadratic), which is outside the model; '
       'the interleaved updates of tb and tc in the CLMUL word loop are modelled as two independent passes (they touch disjoint vectors). '
       's is a non-negative integer in the model; negative s is only probed (LinearComplexityNative then equals its value on s mod 2^length; LinearComplexity raises OverflowError). '
@@ -235,22 +235,23 @@ claim('C07',
 # C17 claimed below
 
 claim('C19',
-      'Lean theorems (Props/C19.lean, 94 kernel-checked statements, no size bounds). '
+      'Lean theorems (Props/C19.lean + Props/C19Shipped.lean, 126 kernel-checked statements, no size bounds; 20 of the 94 in Props/C19.lean are HISTORICAL: they describe the functions as they were before the fixes 275bdf4 (D7), cdbbb74 (D16), 02ff5e0 (D9), are kept as the refutations that motivated those fixes, are marked so in their docstrings, and get no correspondence runs any more). '
       'ntheory_util: Inverse2exp returns None iff n is even and otherwise a with a*n = 1 mod 2^k for every k (reduced for k >= 2); '
       'InverseSqrt2exp returns a with a*a*n % 2^k == 1 and returns None exactly when no such a exists (for k >= 3: iff n % 8 != 1; k = 0 always None, literal docstring reading); '
       'Sqrt2exp raises ValueError for even n / negative k and for odd n returns exactly the reduced square roots of n mod 2^k: each is a root, pairwise distinct, none missing, none or four for k >= 3, empty iff no root exists; '
       'ContinuedFraction(a,b) equals Euclid\'s quotient list with the convergents of the textbook recurrence (the model\'s fuel 2*bitlen(b)+2 provably never runs out), r_{i+1} t_i - r_i t_{i+1} = (-1)^i, every convergent in lowest terms, last convergent = (a/gcd, b/gcd); '
-      'DivmodRounded: q*b + r = a always, exact remainder ranges for all four sign/parity classes of b, nearest-integer (ties up) for even b and for b < 0, exact for every power of two >= 2 (the callers\' case), and the docstring claim q = round(a/b) is REFUTED for odd b > 0 (DivmodRounded(1,3) = (1,-2), D16; full theorem for the repaired variant); '
+      'DivmodRounded AS SHIPPED (d = b // 2 if b > 0 else (b + 1) // 2, /repo HEAD since fix cdbbb74; Props/C19Shipped.lean): ZeroDivisionError exactly for b = 0 and no other exception, total for b != 0, r = a - q*b, exact remainder range -b <= 2r < b for b > 0 and b < 2r <= -b for b < 0 (odd or even), hence |2r| <= |b|, q a nearest integer, ties towards +infinity (every integer at least as close is <= q), closed form q = (2a + b) // (2b) = floor(a/b + 1/2) for every b != 0 (round half up, not Python round-half-even), the characterisation (q, r) is the result IFF identity + range, exact division, every power of two incl. 1 (DivmodRounded(a, 1) = (a, 0)), and the two chained calls of CheckContinuedFraction give N = a*x^2 + b*x + c with balanced digits. HISTORICAL (D16, fixed by cdbbb74): before the fix d = (b + 1) // 2 made the docstring claim false for odd b > 0 (DivmodRounded(1,3) was (1,-2)): divmodRounded_round_fails and 10 further theorems about the pre-fix function are kept as that refutation; shipped = pre-fix for even b and for b < 0; '
       'Sieve(n) = the increasing list of primes below n. '
-      'linalg_util: upper_triangular_solve returns x with (upper triangle of a) x = b, None iff a zero on the diagonal, shape errors as coded; every step of echelon_form (elimination with non-zero pivot, row move, exact division) preserves the solution set; solve_right WITH fixes/D7-solve-right.diff returns the unique solution of any consistent system whenever it returns a vector, under the hypothesis that every //= was exact (Bareiss exactness is a hypothesis, monitored at run time); for the pinned code a kernel-checked 5x4 counter-example (D7). '
-      'lattice_suite / util / small_roots: PseudoAverage picks the first minimiser of the stated variance difference (exact ring identity), which is the global minimum over all 2^m shift selections, result in [0,n); each Bias summand is the distance to the nearest multiple of n and 0 <= 2t/n <= len; UniformSumCdf\'s running binomial is C(n,k) and its exact value is the Irwin-Hall sum (n <= 36), branch structure incl. reflection; CombinedPValue decision logic; small-root guards: an accepted candidate has y = f(r) mod n with y != 0 and y | n, which is a root modulo a proper factor only if |y| != 1 - the code does not test this (D9, reproduced with the real LLL); repaired guard proved. '
-      'Model tied to /repo by differential correspondence: exhaustive n < 4096, k <= 12 for the 2-adic routines, 1..4096-bit random values with k up to 2050, Fibonacci worst cases up to 4200 bits, all |a|,|b| <= 60 for DivmodRounded, Sieve for n <= 300 and up to 2^20, integer matrices up to 8x5 incl. planted zero rows/pivots/dependent rows, float results of UniformSumCdf/CombinedPValue/Bias within 1e-9 of the exact model value (mpmath), planted-root polynomials with recorded and adversarial LLL answers (~330k inputs per quick run). '
-      'NOT claimed: that the small-root finders find the planted root (depends on LLL), exactness of the fraction-free divisions (hypothesis), UniformSumCdf for n > 36 being the Irwin-Hall CDF (it is the documented normal approximation, within the 1e-3 the repo\'s test states), validity of any p-value.',
-      'Defects found here and since repaired in /repo (fixed entries of known_findings.json; the pinned model variants and their refutation theorems are kept as the historical record, the shipped functions are the .repaired variants): D7 (solve_right returned a wrong vector for a consistent system), D9 (the small-roots guard accepted f(r) = +-1), D16 (DivmodRounded for odd divisors). '
+      'linalg_util: upper_triangular_solve returns x with (upper triangle of a) x = b, None iff a zero on the diagonal, shape errors as coded; every step of echelon_form (elimination with non-zero pivot, row move, exact division) preserves the solution set; solve_right AS SHIPPED (zero-pivot move a.insert(nrows - 1, a.pop(i)), /repo HEAD since fix 275bdf4) returns the unique solution of any consistent system whenever it returns a vector, under the hypothesis that every //= was exact (Bareiss exactness is a hypothesis, monitored at run time). HISTORICAL (D7, fixed by 275bdf4): a kernel-checked 5x4 counter-example for the pre-fix row move (solveRight_pinned_d7, solveRight_pinned_d7_wrong). '
+      'lattice_suite / util / small_roots: PseudoAverage picks the first minimiser of the stated variance difference (exact ring identity for every integer n), which FOR n > 0 is the global minimum over all 2^m shift selections, result in [0,n) for n > 0; each Bias summand is, FOR n > 0, the distance to the nearest multiple of n and 0 <= 2t/n <= len. Outside n > 0 (Props/C19Shipped.lean, run against the real code): n = 0 raises ZeroDivisionError in both functions for every input (pseudoAverage_n_zero, bias_n_zero; the empty list also raises for every n; totality iff-statements pseudoAverage_total_iff, bias_total_iff); for n < 0 PseudoAverage returns a value in (n, 0] and its loop selects a prefix shift of MAXIMAL variance (pseudoAverage_range_neg, pseudoAverage_neg_max_variance), every Bias summand lies in [n, n/2] and 2t/n in [len, 2 len], so the p-value is 1.0 (bias_term_neg, bias_normalized_range_neg); UniformSumCdf\'s running binomial is C(n,k) and its exact value is the Irwin-Hall sum (n <= 36), branch structure incl. reflection; CombinedPValue decision logic; small-root guards AS SHIPPED (abs(y) > 1 and n % y == 0, /repo HEAD since fix 02ff5e0): for every polynomial, modulus n > 0 and EVERY candidate list (every LLL / factorisation / solve_right answer) a returned candidate is one of the candidates and a true root modulo a proper divisor d of n, 1 < d < n (uni_tail_repaired_true_root, guard_multi_repaired_true_root; C19Shipped.guard_uni_sound, uni_tail_sound, guard_multi_sound, guard_uni_rejects_unit); multivariate_modn: a returned tuple is a root modulo n. HISTORICAL (D9, fixed by 02ff5e0): the pre-fix guard y != 0 accepted f(r) = +-1 (guard_uni_fails and 6 further theorems about the pre-fix guard are kept as that refutation). '
+      'Model tied to /repo by differential correspondence: exhaustive n < 4096, k <= 12 for the 2-adic routines, 1..4096-bit random values with k up to 2050, Fibonacci worst cases up to 4200 bits, all |a|,|b| <= 60 for DivmodRounded, Sieve for n <= 300 and up to 2^20, integer matrices up to 8x5 incl. planted zero rows/pivots/dependent rows, float results of UniformSumCdf/CombinedPValue/Bias within 1e-9 of the exact model value (mpmath), planted-root polynomials with recorded and adversarial LLL answers (~325k inputs per quick run); DivmodRounded, PseudoAverage (n <= 0) and Bias (n <= 0) predicates are evaluated on the implementation for EVERY generated case, incl. the exact tie rule. '
+      'FIND THE PLANTED ROOT (oracle/search only, no theorem - LLL is not modelled): gated by measurement. Inside the region PLANTED_ROOT_GATE of harness/corr/c19_misc.py (univariate_modp, k in {2,3}: ub <= floor((k-1)*bits/(2k-1)) - 2; multivariate_modp bivariate: m=3 and u1+u2 <= floor(3*bits/16) - 3, or m=4 and u1+u2 <= floor(bits/4) - 3; multivariate_modn m=1: u1+u2 <= floor(2*bits/3) - 10; balanced unknowns, 64 <= bits <= 1024 resp. 256) the real finders recovered the planted root in 2000 of 2000 measured instances of every quick-tier family and 500 of 500 of every thorough-tier family, and a miss there is reported as a failing input; outside the region (margin 0/1 bit, or beyond the lattice bound) the counts in planted_root_found are statistics only. multivariate_modp with m = 2 never finds a planted root (0 of 1500, any bound: the 6x5 linearised system is inconsistent) and is not used as a planted-root family. '
+      'NOT claimed: that the small-root finders find the planted root outside the measured region or for other polynomial shapes (depends on LLL), exactness of the fraction-free divisions (hypothesis), UniformSumCdf for n > 36 being the Irwin-Hall CDF (it is the documented normal approximation, within the 1e-3 the repo\'s test states), validity of any p-value.',
+      'D7 (solve_right wrong vector for a consistent system), D9 (guard accepted f(r) = +-1) and D16 (DivmodRounded for odd divisors) WERE defects of the pinned tree; they are fixed in /repo (commits 275bdf4, 02ff5e0, cdbbb74), are not listed in known_findings.json and are not reported by ./check any more; should the correspondence run ever find the pre-fix behaviour again it is a VIOLATION, not a known finding. '
       'Arguments are modelled in the ranges the callers use (n, a, b >= 0 for the ntheory functions; DivmodRounded on all integers). '
       'Trusted: Lean kernel, Mathlib definitions of Nat.Prime / ModEq / gcd / Rat, correspondence harness, in-memory application of the D7 diff, mpmath for the float tail, gmpy2.mpq normalisation.',
-      'Lean 4 proofs over an executable model + differential correspondence with the Python implementation; defects carried as pinned/repaired model variants',
-      'DESIGN.md section 5 C19, defects D7 D9 D16')
+      'Lean 4 proofs over an executable model + differential correspondence with the Python implementation; the three repaired defects are carried as historical pre-fix model variants next to the shipped ones',
+      'DESIGN.md section 5 C19, repaired defects D7 D9 D16')
 
 # C18 claimed below
 
@@ -278,7 +279,7 @@ claim('C08',
       'the generator exhaustively for len 0..130 x 8 flag sets x every shipped metadata triple; HiddenNumberProblemForCurve on GMP-LCG emulated nonces (emulation self-checked against the shipped constants), TruncLcgRand nonces and the shipped test samples. '
       'NOT claimed: that LLL returns the planted vector ("number of signatures x biased bits >= 2 x curve size => detected", "as many signatures as the shipped model declares"): hits/misses per family are reported as statistics only.',
       'Trusted: Lean kernel, correspondence harness, fpylll as oracle (answers recorded at lll.reduce), the float expression int(n.bit_length()/len(a)*1.25) as an oracle value (equal to floor(5 bl/(4 len)) on bl<600, len<=130 on every run). '
-      'CHECK LAYER (BiasedBaseCheck / CheckCr50U2f, proved in Props/C02S.lean and re-exported): the (a,b) handed to the solvers are HiddenNumberParams of each unique (r,s,z); windows 24/48/120 cover every value; if any solver call returns a private key of an issuer key, EVERY signature of that issuer is flagged with that key (all_of_issuer_flagged); a signature\'s verdict depends only on the answers for its own curve group and only a key of its own issuer key can flag it (group_isolation, flagged_only_by_own_key).',
+      'CHECK LAYER (BiasedBaseCheck / CheckCr50U2f, proved in Props/C02S.lean and re-exported): the (a,b) handed to the solvers are HiddenNumberParams of each unique (r,s,z); windows 24/48/120 cover every value; if any solver call of the curve group returns a private key of an issuer key tuple WITH COORDINATES BELOW p (KeyReduced: necessary — a key given as x+p is never matched), with reduced generator/caches (FactoryReduced: a theorem for CURVE_FACTORY) and list(guesses) an enumeration of the answers (GuessConsistent), EVERY signature of that issuer is flagged; the recorded value is the LAST guess of list(guesses) that is a key of the tuple — congruent to d mod n, equal to d when the answers come from the solver models, which reduce mod n (all_of_issuer_flagged, C08Chain.chain_core); a signature\'s verdict depends only on the answers for its own curve group and only a key of its own issuer key can flag it (group_isolation, flagged_only_by_own_key).',
       'Lean 4 proof (pre/post sandwich around the LLL oracle, decision tables, unreachability) + differential correspondence with recorded and adversarial oracle answers',
       'DESIGN.md section 5 C08, section 7')
 
@@ -296,7 +297,7 @@ claim('C10',
       'v = int(dlog*multiplier) is NOT reduced (on curves with n < 2^33 it can be d+n; negative values occur); the multiplier list is exactly that of the property (multipliers_spec) and every multiplier is invertible mod n on the nine named curves (named_multipliers_invertible). '
       'diff_complete — all points finite, reduced, on the curve: every key P for which another key Q of the call (points or other_points) has P != Q, P-Q = k*G, |k| < max(cached table size, max_diff) is flagged, hence both keys of such a pair; diff_identical_not_flagged — a key whose companions are all the same point is not flagged. '
       'history_invariant / history_monotone — after ANY sequence of the three calls with any arguments and oracle values, _table is {} or exactly PointTable(g, _table_size), _table_size never decreases, and everything BatchDL guarantees from the fresh state it guarantees from that state. '
-      'Check level (checkWeakECPrivateKey_spec, checkECKeySmallDifference_spec): for every batch mixing keys of all curves, unknown and None curve ids, every factory with unique ids: no exception; keys without curve get no result; result <-> info attached; structured keys are flagged with DISCRETE_LOG v, v*G = P, v = d mod n; close keys are both flagged with a true relation naming another key of the same curve. '
+      'Check level (checkWeakECPrivateKey_spec, checkECKeySmallDifference_spec): for every batch mixing keys of all curves, unknown and None curve ids, every factory with unique ids: no exception; keys without curve get no result; result <-> info attached; structured keys are flagged with DISCRETE_LOG v, v*G = P, v = d mod n — for EVERY batch: the key itself must be on its curve and reduced, its neighbours may be anything (off-curve, unreduced; Props/C10Any.lean checkWeakECPrivateKey_every_batch; reachable tables); close keys are both flagged with a true relation naming another key of the same curve — proved when ALL keys of that curve group are on the curve and reduced (SDHyp); with degenerate neighbours this clause is searched on the implementation only (corr/c18ec tag valid-among-degenerate). '
       'driver_model_agree: the hash-map instance run by the native driver returns the same answers as the association-list instance the theorems are about. '
       'Model tied to /repo by differential correspondence (~57k lines per quick run, 0 divergences): BatchDL exhaustively on a toy curve of prime order 37..61 (every x of the group x every bound 0..order+1 x list lengths 1..12 x states fresh / after-small / after-large obtained from all 16 ordered pairs of earlier BatchDL/BatchDLOfDifferences calls, the dict compared entry by entry and in order), '
       'sampled on orders 101..1009, named curves at the giant-step boundaries x = j*t +- (ts-1), j*t +- ts, n-1, n, 0, negative logs, bounds up to 2^20, cached-equal/larger/smaller tables; ExtendedBatchDL on supersingular toy curves with 40- and 64-bit prime-order subgroups (thorough: 32..97 bits and three named curves), '
@@ -342,9 +343,9 @@ NOTES_C02S = (
     'C17: mapIssuer_partition (distinct keys, increasing non-empty index lists, permutation of range(len)), writes_by_index (exactly one entry per signature with a known curve, none otherwise), '
     'verdict_independent (verdict = function of curve, own key tuple, list(guesses) of own group: not of batch, position, order, check kind, cache content, earlier calls), flagged_monotone '
     '(flagged stays flagged when the guess set grows), check_preserves (curve objects satisfy all hypotheses again after every call). '
-    'C18: check_total (never raises when every known-curve signature has s invertible mod n — any r, hash length 0.., key, curve id, batch size incl. empty, any oracle answer; CheckCr50U2f unconditionally), '
+    'C18: check_total (never raises when every known-curve signature has s invertible mod n — any r, hash length 0.., key, curve id, batch size incl. empty, any oracle answer; CheckCr50U2f: check layer only — the solver is an answer oracle there; composed with the solver model in Props/C18Ec.lean it needs n not dividing r), '
     'check_error + check_raises (exact set of raising inputs: a BiasedBaseCheck on a batch containing ONE known-curve signature with s = 0 mod n raises ZeroDivisionError for the whole batch; nothing else raises), '
-    'namedFactory_ok (hypotheses hold for CURVE_FACTORY as regenerated, given primality of the nine field primes). '
+    'namedFactory_ok (hypotheses hold for CURVE_FACTORY as regenerated, primality of the nine field moduli and group orders is kernel-checked: C11Primes, EcAll.fieldPrimes, C02.namedFactory_ok_certified). '
     'Correspondence (harness/corr/c02s.py, ~800 lines per quick run, 3 seeds green): every Check call of the seven real check objects on batches of 1-3 issuers x 1-2 curves with planted MSB/prefix/postfix/Cr50 bias '
     '(real solvers recover the key), healthy, duplicate, same-(r,s)-other-hash signatures, unreduced/invalid keys, unknown curve ids, r/s out of range, empty batch, hash lengths 0..64, window boundaries 1..130, '
     'repeated calls of the same object, alone/batch/permuted; solver ARGUMENTS predicted exactly, ANSWERS real or adversarial (0, n, n+-1, d, d+-n, -d, 2d, other keys, random, huge, duplicates, mpz); '
@@ -383,9 +384,12 @@ claim('C17',
 claim('C18',
       'Lean theorems (Props/C18.lean and the files it builds on): none of the per-key RSA checks raises for ANY modulus, parameter and well-formed oracle answer (CheckFermat, CheckHighAndLowBitsEqual — the internal ArithmeticError and the '
       'None % 2 TypeError are unreachable —, CheckContinuedFractions, CheckBitPatterns, CheckPermutedBitPatterns, CheckSmallUpperDifferences, CheckUnseededRand); BatchGCD / CheckGCD / CheckGCDN1 never raise on positive moduli incl. the empty batch '
-      '(after fix D1); the bookkeeping layer is total on fresh artefacts (C16); EC Add / Double / Subtract never raise for any integer coordinates (C11 add_double_total, after fix D3), CheckWeakECPrivateKey and CheckECKeySmallDifference return one '
-      'verdict per key for any mixture of curve ids (weakECPrivateKey_total, smallDifference_total); the ECDSA nonce / LCG / U2F checks never raise when s is invertible mod n — i.e. for r, s in [1, n-1] — for any hash length, issuer key, curve id, batch '
-      'size and solver answer (sig_checks_total), and the Cr50 sanity raise is unreachable (C08). Characterised, outside the property\'s domain: s = 0 (mod n) makes the six BiasedBaseCheck checks raise ZeroDivisionError; moduli under 64 bits make CheckKeypairDenylist raise. '
+      '(after fix D1); the bookkeeping layer is total on fresh artefacts (C16); EC Add / Double / Subtract never raise for any integer coordinates (C11 add_double_total, after fix D3), EC keys (Props/C18Ec.lean, review finding F2): for ANY natural-number coordinates (0, p, p+x, 2^600, off-curve, (0,0), keys equal mod p), ANY content of the cached _table, any ExtendedBatchDL bound and max_diff, any mixture of curve ids, '
+      'CheckValidECKey, CheckWeakCurve, CheckWeakECPrivateKey, CheckECKeySmallDifference and CheckAllEC return, with an entry exactly for the keys on known curves (weakECPrivateKey_total_any, smallDifference_total_any, checkAllEC_total_any; hypotheses: one _table state per curve object, float sqrt oracles >= 1; '
+      'CURVE_FACTORY validity incl. field primality is proved). EcCurve.Multiply raises (ValueError) exactly for scalar 2, y a non-zero multiple of p and 3x^2+a = 0 mod p (multiply_raises_iff, e.g. Multiply((1,p),2) on secp256r1); no check reaches it (ext_inverse_ne_two). '
+      'ECDSA: with the solver ANSWERS as oracles the check layer never raises when gcd(s,n) = 1, for any r, hash, issuer key (sig_checks_total; CheckAllECDSASigs incl. CheckIssuerKey on invalid / unreduced issuer keys: checkAllECDSASigs_total_any); COMPOSED with the solver models (HiddenNumberProblem, ...ForCurve, Cr50U2fGuesses) '
+      'the checks and the entry point never raise for r, s in [1, n-1], any hash length, any issuer key (sig_checks_solver_total, checkAllECDSASigs_solver_total; remaining oracles: lll.reduce output with rows of length >= 2, one float, set orders); the Cr50 sanity raise is unreachable (C08). '
+      'Outside the domain, characterised: r = 0 mod n makes Cr50U2fGuesses raise ZeroDivisionError (cr50_solver_raises); Characterised, outside the property\'s domain: s = 0 (mod n) makes the six BiasedBaseCheck checks raise ZeroDivisionError; moduli under 64 bits make CheckKeypairDenylist raise. '
       'Every run pushes degenerate well-formed batches (sizes 0,1,2,24; prime/even/square/power-of-two/odd-length moduli with any exponent; every curve id incl. unknown and binary-field; coordinates 0, p, p+x, huge, off-curve, y = 0; duplicates; '
       'empty and 64-byte hashes; invalid issuer keys) through every real check (the real CheckAll* entry points in the thorough tier) and reports any exception with the batch as replay.',
       'Trusted: Lean kernel, harness. Exceptions raised INSIDE oracles (fpylll, scipy, sympy) are outside the model; the lattices handed to LLL are triangular with non-zero diagonal.',
@@ -461,7 +465,7 @@ NOTES_ECALL = (
     'bookkeeping layer about which artefacts get an entry is Err.shape (proved impossible) - never a silent pass. Verdict conversion: DISCRETE_LOG = format(d,"x"), '
     'DISCRETE_LOG_DIFF = "key - (%x, %x) = %d * G". '
     'Theorems (Props/EcAll.lean, namespace Paranoid.EcAll, 9 theorems, axioms propext / Classical.choice / Quot.sound; all are compositions of C02S / C06 / C10 / C16 / C18 through the glue of '
-    'Proofs/EcAll.lean; hypothesis FieldPrimes = the nine field moduli are prime): '
+    'Proofs/EcAll.lean; FieldPrimes = the nine field moduli are prime is now a THEOREM, EcAll.fieldPrimes, from the C11Primes certificates): '
     'checkAllECFull_total, checkAllECDSASigsFull_total (C18 end to end: on well-formed calls - ECWF: reachable _table states, every key with a known curve id is a reduced point of its curve, '
     'float oracles >= 1 where a table is built; SigWF: valid curve objects = CURVE_FACTORY up to _cache, enumerating set-order oracles, s invertible mod n, well-formed inner CheckAllEC call on the '
     'distinct issuer keys - with the literal 2**32 and any max_diff, every registered check returns, model and bookkeeping agree on applicability, the bookkeeping does not raise on any pre-existing '
@@ -553,3 +557,23 @@ _add('C13', 'FULL-STRENGTH HISTORY FORM (Props/C13History.lean, 11 theorems; the
 _add('C16', 'PRE-ANNOTATED artefacts (Props/C16Merge.lean, 12 theorems; review finding F15): for ANY initial test_info (stale positive/negative entries of the same checks, foreign names, duplicate names, any order/weak flag/version), every list of checks with pairwise different names, every verdict oracle, after _CheckArtifacts / CheckAllRSA / CheckAllEC / CheckAllECDSASigs returned: every check that applies to the artefact has its entry = merge(old first entry of that name if any, this run\'s test_result) = (name, old.result OR new.result, max severity), '
             'exactly one such entry unless the artefact came with duplicates (count = max 1 old; later duplicates untouched); entries of checks that do not apply and of every other name are untouched; names = old names in old order then the missing applicable check names in run order; weak = old weak OR some applicable check positive in this run (never cleared); paranoid_lib_version kept if non-empty (a re-run does NOT refresh it), else the library version iff some check applied '
             '(preannotated_entries, registry_preannotated, checkAllRSA_preannotated / checkAllEC_preannotated / checkAllECDSASigs_preannotated). ./check C16 runs the real entry points twice on artefacts carrying each class of stale annotation and evaluates this clause on the protobufs (merge_pred, from the spied SetTestResult arguments) on every call.')
+
+# ---- second round after the independent review (findings F2 F4 F5 F7 F8 F10 F12 F13 F14 F16)
+_add('C14', 'Props/C14Wrapper.lean (17 theorems) closes the wrapper glue: int.to_bytes / from_bytes round trip and bit order for ALL lengths; wrapper_glue (the Python wrapper executed statement by statement over the word-level C++ model = Model/BM.lean\'s linearComplexity on EVERY (s, length), errors included); wrapper_spec (ValueError / OverflowError / TypeError / -1 / shortest LFSR); '
+            'linearComplexity_is_shortest_lfsr (explicit hypothesis CppSizeOk: the Python-level LinearComplexity(s, length) through to_bytes, the pybind int and either C++ variant = shortest-LFSR length of s_0..s_{length-1}, bit i of s = s_i, the order nist_suite.LinearComplexity hands over its blocks: nist_block_bits, nist_block_linear_complexity); int_quantities_fit; wrapper_enforces_size_limits. '
+            'Correspondence: ops bm.to_bytes, bm.wrapper_cpp (both variants) against the real to_bytes / LinearComplexity incl. the OverflowError / ValueError cases.')
+_add('C20', 'TOTAL-correctness form (Props/C20Total.lean, 19 theorems; review finding F14): decidable entryOk on the constructor parameters (TruncLcgRand k >= 1; Mwc b = 256^j, j >= 1; Lehmer bits a positive multiple of 8 and mod > 0; SubsetSum bits a positive multiple of 8 and k >= 1); entry_total: entryOk => constructor and RandomBits(n, seed) RETURN r for every n >= 0 and seed, with r < 2^n '
+            '(shipped TruncLcgRand: the D5 bound; SubsetSum: under the explicit oracle hypothesis that os.urandom answers ceil(n/bits) times with a non-zero subset sum — subsetSum_returns_iff shows this is exactly the criterion); entry_not_ok: otherwise, for n >= 1, exactly ValueError (constructor), ZeroDivisionError (TruncLcgRand(0), Mwc(a,1), Lehmer(mod=0)) or NON-TERMINATION '
+            '(Lehmer(bits=0, mod != 0), SubsetSum(bits,0), SubsetSum(0,k): lehmer_bits_zero_never_terminates, subsetSum_never_ends over the literal while loops; lehmer_while_is_for: the while loop is the model\'s for loop); entry_n_zero; registry_entries_ok: every bundled registry entry is entryOk, so the property (which quantifies over the registry) is unaffected — the three diverging constructors are an observation, patch proposed in fixes/rng-nonterminating-constructors.diff, not applied.')
+_add('C08', 'COMPOSED CHAIN (Props/C08Chain.lean, 20 theorems, examples Props/C08ChainEx.lean; review finding F8): for the call the checks make (w = None; getLattice_none, default weights defaultW), for every prime n, key d < n, values (r,s,z) with s invertible signed with d (s*k = z + r*d mod n): sandwich_/sigs_/chain_{msb, prefix, postfix, generalized}, sandwich_cr50/chain_cr50, sandwich_lcg/chain_lcg prove '
+            '(PRE) the planted row — MSB (n*w+1, d, k_i*w); prefix (n*w+1, d, e_i*w) with k = top+e, |e| < 2^(bl-bits); postfix (n*w+1, d, h_i*w) with k = low + 2^beta*h, beta = max(3, float oracle), n odd; generalized (m, y, e_i*w) for any representatives m of the multiplier and y = m*d; Cr50 (c1, c2, -256, 0); LCG (n*w+1, d, e_t*w) over the flattened list of one yielded subset — is an explicit integer combination of the rows of the lattice built, with entries below 2^(bl-bits)*w; '
+            '(POST) IF the lll.reduce answer contains +- that row THEN the solver model returns a list containing d (side condition n not dividing +-T0 discharged); (CHECK) with the check layer\'s solver oracle instantiated by the solver models (SolvedGroup, evaluable solvedGroupB), every signature of the batch with that curve and issuer key tuple is marked weak with DISCRETE_LOG = format(d, "x") — d itself, since every model guess is < n. The curve-side hypotheses hold for CURVE_FACTORY by named_curves_ok (certified primes); hnp_total_prime: the solver model never raises on the calls the bias checks make. '
+            'STILL ORACLE: "lll.reduce returns a basis containing +- the planted row" (Lovasz / short-vector argument not formalised); counted per run on the real checks with LLL recorded inside the solver calls (extra.chain_statistics: in seeds 1-3 every key found came with the planted row in the LLL answer: 526/526 solver-level, 108/108 check-level). The default COMMON_POSTFIX weight exploits only beta = max(3, floor(1.25*bl/len)) of the common low bits and needs bits >= beta; for GENERALIZED the row LLL returns belongs to a small multiple of the secret multiplier; the LCG statement is about c_j*k_i - d_j mod n being small, not about the generator.')
+_add('C02', 'Props/C02Cert.lean: primality of the nine field moduli and group orders is kernel-checked, no longer a hypothesis (namedFactory_ok_certified, dlogs_sound_named: clauses 1 and 2 for every curve of namedCurves with no hypothesis on the curve). Clause (2) for keys that HAVE a private key: for an on-curve P = d*G (any integer d) a recorded v satisfies v*G = P and v = d mod n (extendedBatchDL_sound_of_privateKey, checkAllEC_dlogs_sound_priv) — n*P = 0 then follows from n*G = 0; '
+            'for a general on-curve point the hypothesis n*P = 0 remains: it needs #E(F_p) = n for the nine named curves (SEC 2 / RFC 5639; NOT proved — no point counting in Mathlib; trusted only for that form). Clause (2) holds whatever the other keys of the batch are (C10Any); clause (3) for calls in which every point is finite and on the curve, with off-curve neighbours search-level only.')
+_add('C10', 'Props/C10Cert.lean, Props/C10Any.lean: curve_factory_hyp_certified / curve_factory_orders_prime (no primality hypothesis left); checkWeakECPrivateKey_spec_priv (keys with a private key, F10); wkHyp_named_nonfresh / sdHyp_named_nonfresh (non-vacuity on the real factory with a non-fresh secp256r1 table evaluated by the kernel); checkWeakECPrivateKey_every_batch, batchDL_every_list (the guarantee for a key does not depend on its neighbours).')
+_add('C16', 'Props/C16EcAllCert.lean, Props/C16RsaAllNV.lean: the end-to-end EC / ECDSA theorems no longer take FieldPrimes nor bound = 2^32 (totality for every ExtendedBatchDL bound: the bound enters only through the float int(sqrt(bound*len)) >= 1, i.e. bound >= 1 — covers the quick tier\'s 2^16); non-vacuity: sigWF_inhabited (two secp256r1 signatures of one issuer + an unknown curve), a kernel-evaluated checkAllECDSASigsFull run on secp192r1 in which CheckNonceMSB writes DISCRETE_LOG = "1", '
+            'wf_nonempty_oracles (RSA WF with LLL rows, candidate lists and table entries that the run consumes).')
+_add('C17', 'EC single checks (Props/C17Ec.lean, 14 theorems; review finding F12): CheckValidECKey / CheckWeakCurve verdicts are functions of the key (checkValidECKey_local, checkWeakCurve_local, end to end checkAllEC_individual_entries_local). CheckWeakECPrivateKey is NOT key-local (weakKey_verdict_depends_on_batch: kernel witness; real run: known finding D22); proved instead: soundness whatever the neighbours (weakKey_sound_any_batch) and the documented families are found in every batch from every reachable state (weakKey_guaranteed_any_context). '
+            'CheckECKeySmallDifference: the boolean verdicts are exactly characterised (smallDiff_flag_iff: flagged iff another key on the same curve differs by k*G with 0 < |k| < V, V the table range) and invariant under permutation, duplication and healthy addition (smallDiff_flags_perm, smallDiff_flags_same_set, smallDiff_add_healthy; keys on-curve and reduced, SDHyp); the RECORDED relation is order-dependent (last hit wins: smallDiff_evidence_depends_on_order, reproduced on the real code) and earlier work can only add flags (smallDiff_verdict_depends_on_history). '
+            'dl_history_monotone covers BatchDL logs in [0,n) of reduced on-curve points only; single_check_alone_eq_batch is the bookkeeping half and assumes a per-artefact verdict; checkAllRSA_single_independent assumes equal singleton state (orc.toRsaGlobals). KNOWN FINDING D22 (C17, recorded, patch fixes/D22-extendedbatchdl-range.diff proposed, not applied): CheckWeakECPrivateKey flags a key whose private key lies just beyond the documented range (e.g. d = 2^32 + 2000000 on secp256r1) in a batch of 9 keys but not alone — the table size, hence the range covered by luck, grows with the batch.')
